@@ -619,8 +619,13 @@ func runCheck(id, tier string, cfg propCfg) int {
 	cov["components_stub"] = stub
 	ev := evidence{PropertyID: id, Tier: tier, Seed: int64(base), Level: "exploration", Coverage: cov, Assumptions: assume, WallS: wall, Violations: reported}
 	b, _ := json.MarshalIndent(ev, "", " ")
-	os.MkdirAll(filepath.Join(verifDir, "evidence"), 0o755)
-	if err := os.WriteFile(filepath.Join(verifDir, "evidence", id+".json"), b, 0o644); err != nil {
+	evDir := filepath.Join(verifDir, "evidence")
+	if os.Getenv("VERIF_REPO") != "" {
+		// a run against some other tree (sensitivity tests) must not overwrite the evidence of /repo
+		evDir = filepath.Join(verifDir, "evidence", "other-tree")
+	}
+	os.MkdirAll(evDir, 0o755)
+	if err := os.WriteFile(filepath.Join(evDir, id+".json"), b, 0o644); err != nil {
 		fmt.Fprintln(os.Stderr, err)
 		return 2
 	}
